@@ -242,6 +242,19 @@ let handle (fields : string list) : string =
     let kn = function KProb -> "prob" | KTermP -> "term_prob" | KTransP -> "trans_prob" in
     String.concat ";" (List.map (fun e -> Printf.sprintf "%d.%d>%d.%d:%s:%s" (int_of_nat (fst e.e_src)) (int_of_nat (snd e.e_src))
                                      (int_of_nat (fst e.e_dst)) (int_of_nat (snd e.e_dst)) (kn e.e_kind) (string_of_q e.e_p)) (reaction_graph els))
+  | [ "agraph"; elems ] ->
+    let atok_of x = (match lst x with
+        | [ A "atok"; t; L (A "bonds" :: bs) ] ->
+          { k_tok = gtoken_of_sexp t;
+            k_bonds = List.map (fun b -> match lst b with [A a; A c; A ty] -> ((z_of_string a, z_of_string c), z_of_string ty) | _ -> failwith "bond") bs }
+        | _ -> failwith "atok sexp") in
+    let aelem_of x = (match lst x with
+        | A "atok" :: _ -> ATok (atok_of x)
+        | [ A "ast"; l; r; L (A "rep" :: reps); L (A "end" :: ends) ] -> AStoch (descr_of_sexp l, descr_of_sexp r, List.map atok_of reps, List.map atok_of ends)
+        | _ -> failwith "aelem sexp") in
+    let (n, es) = atom_graph (List.map aelem_of (lst (parse_sexp elems))) in
+    let kn = function WStatic -> "static" | WStoch -> "stochastic" | WTerm -> "termination" | WTrans -> "transition" in
+    string_of_z n ^ " " ^ String.concat ";" (List.map (fun e -> Printf.sprintf "%s>%s:%s:%s:%s" (string_of_z e.a_u) (string_of_z e.a_v) (string_of_z e.a_bt) (kn e.a_kind) (string_of_q e.a_w)) es)
   | [ "float"; s ] ->
     (match py_float (explode (unhex s)) with None -> "ERR" | Some x -> string_of_num x ^ " " ^ implode (fprint x))
   | [ "repr"; s ] -> py_repr (float_of_string s)
